@@ -76,6 +76,18 @@ def run(ctx):
             cases.append(mk_case("e%d_%d" % (i, k), a, ctx.rng))
         if len(a["groups"]) > 1:
             cases.append(mk_case("o%d" % i, a, ctx.rng, overlap=True))
+    if not thorough:
+        # three Twp/Rge groups, one section group each: all shapes that come back to an earlier Twp/Rge (A, B, A) and
+        # a tenth of the others (the thorough tier enumerates three groups anyway)
+        res3 = ctx.tlc("PlssDoc", dict(base, MaxGroups=3, MaxSecs=1, Fault="none", EmitCases=True), invariants=["EmitCase"],
+                       workers=1, count=False)
+        for i, a in enumerate(res3.cases):
+            g = a["groups"]
+            if len(g) != 3:
+                continue
+            aba = g[0]["tr"] == g[2]["tr"] != g[1]["tr"]
+            if aba or ctx.rng.random() < 0.1:
+                cases.append(mk_case("t%d" % i, a, ctx.rng))
     if not cases:
         raise core.MachineryFailure("PlssDoc emitted no cases")
     ctx.exhaustive = not thorough
@@ -83,8 +95,10 @@ def run(ctx):
     ctx.rule = ("documents = every shape (layout x Twp/Rge groups x section groups x list kind) reachable in "
                 "spec/PlssDoc.tla within %d groups x %d section groups%s; each rendered once plainly and %d times with "
                 "random documented spellings / separators / numbers / blocks, and (two or more groups) once with repeated / "
-                "overlapping Twp/Rge spellings; non-trivial = distinct rendered text" % (
-                    base["MaxGroups"], base["MaxSecs"], "" if not thorough else " (10% seeded sample)", reps))
+                "overlapping Twp/Rge spellings%s; non-trivial = distinct rendered text" % (
+                    base["MaxGroups"], base["MaxSecs"], "" if not thorough else " (10% seeded sample)", reps,
+                    "" if thorough else "; plus three-group shapes with one section group each (all that return to an earlier "
+                                        "Twp/Rge, a tenth of the others)"))
     ctx.assumptions += ["rendering vocabularies of harness/render.py and the layout templates of harness/plssdoc.py",
                         "blocks contain no Twp/Rge or section wording and do not end in a culled word (of/the/in/and)",
                         "desc_STR groups are joined to their Twp/Rge by ', ', ' of ', ' in ' or a blank; "
